@@ -849,6 +849,9 @@ func (s *Server) doModify(cid string, ops []*spb.AFTOperation, resCh chan *spb.M
 		switch {
 		case err != nil:
 			errCh <- err
+			// The error is fatal to the Modify RPC, the remaining operations of the
+			// request must not be applied once the RPC has been terminated.
+			return
 		default:
 			resCh <- res
 		}
